@@ -186,7 +186,7 @@ pub fn run(obs: &Arc<Obs>, scenarios: &[J], out: &mut dyn Write, scratch: &Path)
                         let r = e.search_vector(&[1.0, 2.0, 3.0, 4.0], 5).map_err(|x| x.to_string())?;
                         Ok(json!({"hits": r.len()}))
                     }
-                    "reopen" => Ok(json!({})),
+                    "reopen" | "vacuum" => Ok(json!({})),
                     _ => Err("unknown step".into()),
                 }
             }));
@@ -228,6 +228,23 @@ pub fn run(obs: &Arc<Obs>, scenarios: &[J], out: &mut dyn Write, scratch: &Path)
             if op == "reopen" {
                 drop(engine.take());
                 match open_engine(&dir) { Ok(e2) => { engine = Some(e2); } Err(m) => { ev["res"] = json!(m); ok = false; } }
+            }
+            if op == "vacuum" {
+                // close cleanly, vacuum the closed database, open it again
+                *obs.page_log.lock().unwrap() = false;
+                if let Some(e) = engine.take() {
+                    if let Err(m) = e.checkpoint_on_close() { ev["res"] = json!(format!("err:close:{m}")); ok = false; }
+                    drop(e);
+                }
+                let v = catch_unwind(AssertUnwindSafe(|| nervusdb_core::vacuum(dir.join("g")).map(|_| ()).map_err(|e| e.to_string())));
+                match v {
+                    Ok(Ok(())) => {}
+                    Ok(Err(m)) => { ev["res"] = json!(format!("err:vacuum:{m}")); ok = false; }
+                    Err(_) => { ev["res"] = json!("panic:vacuum"); ok = false; }
+                }
+                obs.pages.lock().unwrap().clear();
+                match open_engine(&dir) { Ok(e2) => { engine = Some(e2); } Err(m) => { ev["res"] = json!(format!("err:open-after-vacuum:{m}")); ok = false; } }
+                *obs.page_log.lock().unwrap() = true;
             }
             if ok {
                 match op {
